@@ -186,11 +186,11 @@ fn snapshot(root: &Path) -> Snapshot {
 
 fn materialise(sc: &Scenario, root: &Path) -> Result<(), String> {
     for d in &sc.dirs {
-        std::fs::create_dir_all(root.join(d)).map_err(|e| format!("mkdir {}: {}", d, e))?;
+        std::fs::create_dir_all(root.join(pb(d))).map_err(|e| format!("mkdir {}: {}", d, e))?;
     }
-    std::fs::create_dir_all(root.join(&sc.cwd)).map_err(|e| e.to_string())?;
+    std::fs::create_dir_all(root.join(pb(&sc.cwd))).map_err(|e| e.to_string())?;
     for (p, t) in &sc.files {
-        let fp = root.join(p);
+        let fp = root.join(pb(p));
         if let Some(d) = fp.parent() {
             std::fs::create_dir_all(d).map_err(|e| e.to_string())?;
         }
@@ -203,7 +203,7 @@ fn materialise(sc: &Scenario, root: &Path) -> Result<(), String> {
         }
         match sc.symlinks.get(p) {
             Some(target) => {
-                let tp = root.join(target);
+                let tp = root.join(pb(target));
                 if let Some(d) = tp.parent() {
                     std::fs::create_dir_all(d).map_err(|e| e.to_string())?;
                 }
@@ -214,7 +214,7 @@ fn materialise(sc: &Scenario, root: &Path) -> Result<(), String> {
         }
     }
     for (p, n) in &sc.stale {
-        let fp = root.join(p);
+        let fp = root.join(pb(p));
         if let Some(d) = fp.parent() {
             std::fs::create_dir_all(d).map_err(|e| e.to_string())?;
         }
@@ -263,7 +263,7 @@ fn reference_inner(root: &Path, sc: &Scenario) -> Reference {
         Some(s) => s.replace("$R", &root.to_string_lossy()),
         None => return Reference::Fails("no source argument".into()),
     };
-    let cwd = root.join(&sc.cwd);
+    let cwd = root.join(pb(&sc.cwd));
     let old = std::env::current_dir().ok();
     if std::env::set_current_dir(&cwd).is_err() {
         return Reference::Fails("cwd".into());
@@ -272,7 +272,7 @@ fn reference_inner(root: &Path, sc: &Scenario) -> Reference {
         .stack_size(64 << 20)
         .spawn(move || {
             std::panic::catch_unwind(|| {
-                avra_lib::builder::build_file(PathBuf::from(src), maplit::btreeset! { avra_lib::utility::get_standard_includes() }).map_err(|e| e.to_string())
+                avra_lib::builder::build_file(pb(&src), maplit::btreeset! { avra_lib::utility::get_standard_includes() }).map_err(|e| e.to_string())
             })
         })
         .expect("spawn");
@@ -371,10 +371,10 @@ pub fn execute(env: &Env, sc: &Scenario, budget: u64) -> Result<RunOut, String> 
     }
     let confp = env.ctl.join("conf");
     std::fs::write(&confp, conf).map_err(|e| e.to_string())?;
-    let argv: Vec<String> = sc.argv.iter().map(|a| a.replace("$R", &root_s)).collect();
+    let argv: Vec<std::ffi::OsString> = sc.argv.iter().map(|a| os(&a.replace("$R", &root_s))).collect();
     let mut cmd = Command::new(&env.bin);
     cmd.args(&argv)
-        .current_dir(env.root.join(&sc.cwd))
+        .current_dir(env.root.join(pb(&sc.cwd)))
         .env_clear()
         .envs(env_for(sc, &env.xdg, &env.ctl).0.iter().map(|v| ("XDG_CONFIG_HOME", v.clone())))
         .envs(env_for(sc, &env.xdg, &env.ctl).1.iter().map(|v| ("HOME", v.clone())))
@@ -641,7 +641,11 @@ pub fn judge(sc: &Scenario, out: &RunOut, reference: &Reference, root: &Path, se
     judge_inner(sc, out, reference, root, seed)
 }
 
-fn judge_inner(sc: &Scenario, out: &RunOut, reference: &Reference, root: &Path, seed: u64) -> Option<Violation> {
+fn judge_inner(sc0: &Scenario, out: &RunOut, reference: &Reference, root: &Path, seed: u64) -> Option<Violation> {
+    // names that are not UTF-8: traces, snapshots and messages show them as to_string_lossy does,
+    // so the judging is done on the scenario spelled that way (distinct names stay distinct)
+    let scl = lossy_view(sc0);
+    let sc = &scl;
     let parsed = parse_argv(&sc.argv);
     let mut parsed_abs = parsed.clone();
     let root_s = root.to_string_lossy().into_owned();
@@ -707,7 +711,7 @@ fn judge_inner(sc: &Scenario, out: &RunOut, reference: &Reference, root: &Path, 
                 "expected_eeprom_path": eep_abs.to_string_lossy().replace(&root_s, "$R"),
                 "trace_tail": trace_tail(&out.trace, 14),
             }),
-            scenario: serde_json::to_value(sc).unwrap(),
+            scenario: serde_json::to_value(sc0).unwrap(),
         })
     };
     if out.timed_out || f.budget_hit {
@@ -815,6 +819,54 @@ fn judge_inner(sc: &Scenario, out: &RunOut, reference: &Reference, root: &Path, 
             None
         }
     }
+}
+
+/// Every name of the scenario through `f` (file texts are left alone).
+fn map_names(sc: &Scenario, f: &dyn Fn(&str) -> String) -> Scenario {
+    let mut n = sc.clone();
+    n.files = sc.files.iter().map(|(k, v)| (f(k), v.clone())).collect();
+    n.stale = sc.stale.iter().map(|(k, v)| (f(k), *v)).collect();
+    n.dirs = sc.dirs.iter().map(|d| f(d)).collect();
+    n.cwd = f(&sc.cwd);
+    n.argv = sc
+        .argv
+        .iter()
+        .map(|a| match a.split_once('=') {
+            Some((o, v)) if o.starts_with("--") => format!("{}={}", o, f(v)),
+            _ if a.starts_with('-') => a.clone(),
+            _ => f(a),
+        })
+        .collect();
+    n.symlinks = sc.symlinks.iter().map(|(k, v)| (f(k), f(v))).collect();
+    n.flip = sc.flip.as_ref().map(|(k, o)| (f(k), *o));
+    for r in n.rules.iter_mut() {
+        r.target = f(&r.target);
+    }
+    n
+}
+
+fn lossy_view(sc: &Scenario) -> Scenario {
+    if !has_raw(&sc.cwd) && !sc.argv.iter().any(|a| has_raw(a)) && !sc.files.keys().any(|k| has_raw(k)) && !sc.dirs.iter().any(|k| has_raw(k)) && !sc.stale.keys().any(|k| has_raw(k)) {
+        return sc.clone();
+    }
+    map_names(sc, &|s| lossy(s))
+}
+
+/// Directory and output file names that are not valid UTF-8 (the stem of the source stays
+/// UTF-8: the default output names are derived from it as text).
+fn raw_names(sc: &Scenario, b: u8) -> Scenario {
+    let c = raw_byte_char(b);
+    map_names(sc, &|s| {
+        s.split('/')
+            .map(|comp| match comp {
+                "proj" | "src" | "abs dir" | "outdir" | "abs out" | "work" | "elsewhere" | "store" => format!("{}{}", comp, c),
+                "flash out.hex" => format!("flash out{}.hex", c),
+                "data.eep" => format!("da{}ta.eep", c),
+                other => other.to_string(),
+            })
+            .collect::<Vec<_>>()
+            .join("/")
+    })
 }
 
 // ---------------------------------------------------------------------------------------------
@@ -978,6 +1030,12 @@ pub fn scenario_shape(tier: &str, base_seed: u64, g: u64) -> Scenario {
         }
     };
     sc.source_class = class.clone();
+    if class == "missing" && r.chance(1, 2) {
+        // the source named does not exist, but a file of the same stem with another extension
+        // does (the tool must not pick it up on its own: the library would not)
+        let sib = format!("{}{}.{}", if srcdir.is_empty() { String::new() } else { format!("{}/", srcdir) }, stem, if ext == ".asm" { "inc" } else { "asm" });
+        sc.files.insert(sib, "    ldi r16, 1\n    nop\n.eseg\n.db 4\n".to_string());
+    }
     if let Some(t) = text {
         if class == "not-utf8" {
             sc.flip = Some((src_rel.clone(), r.usize(t.len().max(1))));
@@ -1090,6 +1148,12 @@ pub fn scenario_shape(tier: &str, base_seed: u64, g: u64) -> Scenario {
             sc.stdout = if r.chance(1, 2) { "devfull".into() } else { "closed".into() };
         }
         _ => {}
+    }
+    // one command line in eight works in directories (and with explicitly named outputs) whose
+    // names are not valid UTF-8: a Latin-1 letter, a lone continuation byte, 0xFF
+    if r.chance(1, 8) {
+        let b = [0xE4u8, 0xFC, 0x80, 0xFF, 0xC3][r.usize(5)];
+        sc = raw_names(&sc, b);
     }
     sc
 }
@@ -1279,6 +1343,8 @@ fn account(acc: &mut Acc, sc: &Scenario, out: &RunOut, reference: &Reference, ro
     stats.probe("both_o_and_e_given", parsed.output.is_some() && parsed.eeprom.is_some());
     stats.probe("o_given_e_defaulted_with_eeprom_data", parsed.output.is_some() && parsed.eeprom.is_none() && elen > 0);
     stats.probe("source_in_subdirectory_with_other_cwd", !sc.cwd.is_empty());
+    stats.probe("directory_or_output_names_that_are_not_utf8", sc.argv.iter().any(|a| has_raw(a)) || has_raw(&sc.cwd));
+    stats.probe("explicit_output_name_that_is_not_utf8", parsed.output.as_ref().map(|o| has_raw(crate::incmodel::basename(o))).unwrap_or(false) || parsed.eeprom.as_ref().map(|o| has_raw(crate::incmodel::basename(o))).unwrap_or(false));
     stats.probe("pre_existing_longer_output_overwritten", built && sc.stale.keys().any(|k| out.before.get(k) != out.after.get(k)));
     stats.probe("failing_build_with_pre_existing_outputs", !built && !sc.stale.is_empty());
     stats.probe("fault_on_second_output_after_first_succeeded", {
@@ -1513,6 +1579,14 @@ pub fn shrink(scv: &Value) -> Vec<Value> {
             s.rules.remove(i);
             push(s);
         }
+    }
+    if lossy_view(&sc).cwd != sc.cwd || lossy_view(&sc).argv != sc.argv || lossy_view(&sc).files.keys().ne(sc.files.keys()) || lossy_view(&sc).dirs != sc.dirs {
+        // plain names instead of names that are not UTF-8
+        let mut s = map_names(&sc, &|x| deraw(x));
+        for r in s.rules.iter_mut() {
+            r.target = r.target.replace('\u{FFFD}', "a");
+        }
+        push(s);
     }
     if sc.fsize_limit.is_some() {
         let mut s = sc.clone();
